@@ -28,6 +28,7 @@ func c06(c *Ctx) {
 	c06get(c)
 	c06invalidate(c)
 	c06index(c)
+	c06sharedBarrier(c)
 }
 
 // isCeilSeconds: s is int(math.Ceil(X.Seconds())); returns X.
@@ -1028,4 +1029,46 @@ func c06index(c *Ctx) {
 		}
 		return true, ""
 	})
+}
+
+// c06sharedBarrier: the single-flight barrier handed to every cache is a package-level one, so that
+// readers of one key are collapsed across all connections/models of the process, not per object.
+func c06sharedBarrier(c *Ctx) {
+	rule := "C06.R3"
+	sites := 0
+	for _, pk := range c.P.Pkgs {
+		rel := strings.TrimPrefix(pk.PkgPath, mod)
+		for _, fn := range c.P.AllFuncs(rel) {
+			for _, b := range fn.Blocks {
+				for _, ins := range b.Instrs {
+					call, ok := ins.(ssa.CallInstruction)
+					if !ok {
+						continue
+					}
+					n := calleeName(call.Common())
+					if n != mod+cachePkg+".New" && n != mod+cachePkg+".NewNode" {
+						continue
+					}
+					if rel == cachePkg {
+						continue
+					}
+					sites++
+					arg := call.Common().Args[1]
+					shared := false
+					if u, ok := arg.(*ssa.UnOp); ok {
+						if _, isG := u.X.(*ssa.Global); isG {
+							shared = true
+						}
+					}
+					cons := fmt.Sprintf("%s.%s→%s", rel, fn.Name(), strings.TrimPrefix(n, mod))
+					c.R.Check(shared, rule, cons, "the load-suppression barrier given to a cache is a package-level single flight shared by every connection/model (concurrent reads of one uncached key run at most one query in the process)", c.P.Pos(ins.Pos()),
+						"the cache gets its own single flight ("+arg.String()+"): readers of the same key on different connections/models each run their own database query", nil, 1)
+				}
+			}
+		}
+	}
+	c.R.Extra["C06.R3_cache_constructor_sites"] = sites
+	if sites < 4 {
+		c.R.Undecided(rule, "cache constructor call sites", "sqlc and monc constructors found", fmt.Sprintf("%d sites", sites))
+	}
 }
